@@ -96,8 +96,12 @@ func (w *Worker) Close() { w.solver.Close() }
 
 // RunPath executes the harness entry following prefix (and exploring beyond it).
 func (w *Worker) RunPath(entry *ssa.Function, prefix []Decision, pinned []string) (res *PathResult) {
+	return w.RunPathSeeded(entry, prefix, pinned, false, 0)
+}
+
+func (w *Worker) RunPathSeeded(entry *ssa.Function, prefix []Decision, pinned []string, seeded bool, seed uint64) (res *PathResult) {
 	res = &PathResult{}
-	p := &Path{w: w, prefix: prefix, res: res, pinned: pinned, mapOrderNondet: w.cfg.MapOrderNondet}
+	p := &Path{w: w, prefix: prefix, res: res, pinned: pinned, mapOrderNondet: w.cfg.MapOrderNondet, seeded: seeded, rng: seed}
 	w.path = p
 	w.resetDirty()
 	w.solver.Push()
@@ -386,4 +390,81 @@ func RunPinned(prog *ssa.Program, hpkg *ssa.Package, cfg *Config, values []strin
 		values = []string{}
 	}
 	return w.RunPath(entry, nil, values), nil
+}
+
+
+// Job / Outcome mirror the native runtime's batch interface (differential validation, replay).
+type Job struct {
+	Entry  string         `json:"entry"`
+	Values []string       `json:"values"`
+	Seeded bool           `json:"seeded"`
+	Seed   uint64         `json:"seed"`
+	Params map[string]int `json:"params"`
+}
+
+type Outcome struct {
+	End    string   `json:"end"`
+	Fails  []string `json:"fails"`
+	Obs    []string `json:"obs"`
+	Covers []string `json:"covers"`
+	Panic  string   `json:"panic,omitempty"`
+	Reason string   `json:"reason,omitempty"`
+}
+
+func RunJobs(prog *ssa.Program, hpkg *ssa.Package, cfg *Config, jobs []Job) ([]Outcome, error) {
+	c2 := *cfg
+	w, err := NewWorker(0, prog, hpkg, &c2)
+	if err != nil {
+		return nil, err
+	}
+	defer w.Close()
+	var outs []Outcome
+	for _, j := range jobs {
+		entry := hpkg.Func(j.Entry)
+		if entry == nil {
+			outs = append(outs, Outcome{End: "noentry"})
+			continue
+		}
+		Params = map[string]int{}
+		for k, v := range j.Params {
+			Params[k] = v
+		}
+		c2.Entry = j.Entry
+		vals := j.Values
+		if vals == nil && !j.Seeded {
+			vals = []string{}
+		}
+		if j.Seeded {
+			vals = nil
+		}
+		res := w.RunPathSeeded(entry, nil, vals, j.Seeded, j.Seed)
+		o := Outcome{Obs: res.Observed, Covers: res.Covers, Reason: res.Reason}
+		for _, v := range res.Violations {
+			if strings.HasPrefix(v.Site, "panic@") || strings.HasPrefix(v.Site, "fatal:") {
+				o.Panic = v.Msg
+			} else {
+				o.Fails = append(o.Fails, v.Msg)
+			}
+		}
+		switch {
+		case res.End == "panic" || o.Panic != "":
+			o.End = "panic"
+		case len(o.Fails) > 0:
+			o.End = "assert"
+		case res.End == "infeasible":
+			o.End = "assume"
+		case res.End == "ok":
+			if res.Reason == "vDone" || strings.HasPrefix(res.Reason, "cut") {
+				o.End = "end"
+			} else {
+				o.End = "ok"
+			}
+		case res.End == "cut":
+			o.End = "end"
+		default:
+			o.End = res.End
+		}
+		outs = append(outs, o)
+	}
+	return outs, nil
 }
